@@ -7,7 +7,8 @@ model      : spec/Solo.tla on both sides with the widest input universe (all 8 P
 spec->code : sequences replayed into lone real handlers
 code->spec : conformance (the transducers predict the exception class of every call) + monitor C10 on the observed values;
              seeded random adversarial runs on both sides incl. deliberately unretrieved PDUs and non-default fault handlers;
-             fault schedules of the closed model
+             fault schedules of the closed model; the executions of the repository's own 78 tests, recorded by a pytest plugin
+             (harness/pytest_cfdptrace.py) that wraps the handlers from outside and freezes the clock during each call
 """
 from flow import Run, replay_file
 
@@ -32,6 +33,7 @@ def run(tier: str, keep: bool = False) -> int:
     r.driver("dst_random", n, ["C10"])
     r.driver("src_random", n // 2, ["C10"], default_fh=False)
     r.driver("dst_random", n // 2, ["C10"], default_fh=False)
+    r.repo_tests(["C10"])
     r.schedules("pairK2", "FamAck(3, {1, 3})", ["C10"], K=2, faults=["drop", "dup", "swap", "flip", "wrej"], limit=500 if q else None)
     r.judge()
     return r.finish(keep=keep)
